@@ -347,12 +347,14 @@ Proof. exact redelivery_noop. Qed.
 Print Assumptions C06_vv_redelivery_noop.
 
 (* ---- RAW re-delivery (the revision handed to the write path again, without the negotiation): a revision the stored
-   vector already knows is answered "already present" and nothing is stored -- unless incoming and stored document are
-   both tombstones (recorded finding vv:redelivered-tombstone-rewritten; C06_Refuted.C06_raw_tombstone_redelivery_refuted) ---- *)
-Theorem C06_vv_raw_redelivery_cancelled : forall res me phys clk i l, src (d_hlv l) <> 0 ->
-  dominates (d_hlv l) (cv (d_hlv i)) = true ->
-  (cv (d_hlv l) = cv (d_hlv i) \/ dominates (d_hlv i) (cv (d_hlv l)) = false) ->
-  VVG.unsendable i = false -> d_del i && d_del l = false ->
+   vector already knows is answered "already present" and nothing is stored -- TOMBSTONES INCLUDED, for the code since
+   6e0c2ba (model switch Switches.known_tombstone_cancelled; before it a tombstone onto a tombstone was written again
+   with the incoming current version: fixed finding vv:redelivered-tombstone-rewritten,
+   C06_Refuted.C06_raw_tombstone_redelivery_refuted).  Two tombstones need no further premise; otherwise the answer is
+   IsInConflict's, which needs that the incoming vector is not "newer" in turn ---- *)
+Theorem C06_vv_raw_redelivery_cancelled : forall res me phys clk i l, known_tombstone_cancelled = true ->
+  dominates (d_hlv l) (cv (d_hlv i)) = true -> VVG.unsendable i = false ->
+  (d_del i && d_del l = true \/ cv (d_hlv l) = cv (d_hlv i) \/ dominates (d_hlv i) (cv (d_hlv l)) = false) ->
   gput res me phys clk i l = (Some l, GCancelled, clk).
 Proof. exact raw_redelivery_cancelled. Qed.
 Print Assumptions C06_vv_raw_redelivery_cancelled.
